@@ -30,12 +30,13 @@ def main():
     patched = make_copy(True)
     try:
         for d in (clean, patched):
-            shutil.copy(demo_src, os.path.join(d, "demo_seed.py"))
+            os.makedirs(os.path.join(d, "SEED", "X"))           # same place relative to the tree as delivered
+            shutil.copy(demo_src, os.path.join(d, "SEED", "X", "demo.py"))
         r = subprocess.run(["patch", "-p1", "-i", os.path.abspath(patch)], cwd=patched, capture_output=True, text=True)
         if r.returncode != 0:
             print("PATCH DOES NOT APPLY", r.stdout[-300:], r.stderr[-300:]); return 3
-        out["demo_clean"] = run_demo(clean, "demo_seed.py")
-        out["demo_patched"] = run_demo(patched, "demo_seed.py")
+        out["demo_clean"] = run_demo(clean, "SEED/X/demo.py")
+        out["demo_patched"] = run_demo(patched, "SEED/X/demo.py")
         out["tests_patched"] = run_tests(patched)
         res = run_checks(patched, props)
         out["checks"] = {p: rc for p, (rc, _) in res.items()}
